@@ -14,6 +14,8 @@ have the same shape and differ where noted at the definitions below):
 
     @handler('write')
     def write(self, sock, data):
+        if sock not in self._clients:      # server only (`fix:` commit of C12)
+            return
         if not self._poller.isWriting(sock):
             self._poller.addWriter(self, sock)
         self._buffers[sock].append(data)
@@ -164,7 +166,11 @@ def afterWrite (s : State) : State × List Ev :=
 
 /-- the handler part of an op (without the boundary marker) -/
 def stepCore (act : Nat → ErrAct) (s : State) : Op → State × List Ev
-  | .write p => ({ s with interest := true, buf := s.buf ++ [p] }, [.wr p])
+  | .write p =>
+    if s.kind = .server ∧ s.isOpen = false then
+      -- server: `if sock not in self._clients: return` (C12 fix: a late write leaves no trace)
+      (s, [.wr p])
+    else ({ s with interest := true, buf := s.buf ++ [p] }, [.wr p])
   | .close =>
     match s.buf with
     | [] => let (s1, ev) := doClose s; (s1, .closeReq :: ev)
